@@ -36,9 +36,11 @@ RULE = ("scripts against the real rch::io channel across a real connection (remo
         "size and receive buffer) partitioned into write / write_all calls (empty ones included) with flushes, reads with "
         "buffers of 0,1,2,3,chunk-1,chunk,chunk+1,receive buffer,1000 bytes, arbitrary interleaving of the two sides, endings: "
         "shutdown (+ further calls), flush+drop, drop without flush, sender stops at any offset, over-long writes, sender "
-        "stays silent, receiver dropped early, connection cut at any point; settled and unsettled (burst) schedules. Every "
-        "API result and accessor is replayed on M_io and the predicates (prefix at every read, EOF decision table, size "
-        "bound, accessors, hangs) are evaluated on the real results. A case is non-trivial if at least one byte was accepted "
+        "stays silent, receiver dropped early, connection cut at any point, write/read calls cancelled while pending, the "
+        "sender object shipped on to the other endpoint in mid-stream (flushed or with a chunk in flight); settled and "
+        "unsettled (burst) schedules. Every "
+        "API result and accessor is replayed on M_io and the predicates (prefix at every read, EOF decision table in both "
+        "directions, size bound, accessors, hangs, panics) are evaluated on the real results. A case is non-trivial if at least one byte was accepted "
         "and the reader either reached a decision (EOF or error) or completed two reads with data; distinct = distinct "
         "sequence of calls and results.")
 TRUSTED_BASE = [
